@@ -280,9 +280,6 @@ class Bisection1D:
 
             i += 1
 
-        coordinates = self.coordinates_domain[i]
-
-        self.calculate_excess(coordinates, self.sim_params.max_height, self.fieldDescriptors[i])
         # Make sure the field being returned pertains to the index which is the
         # closest to 0 but also negative (the maximum of all 0 or negative
         # excess temperatures)
